@@ -7,6 +7,7 @@ import (
 	"encoding/hex"
 	"encoding/json"
 	"fmt"
+	"io"
 	"net/http"
 	"net/url"
 	"os"
@@ -106,10 +107,10 @@ func newSandbox(t testing.TB) *sandbox {
 		os.WriteFile(p, []byte("secret "+content+"\n"), 0o644)
 		s.tokens = append(s.tokens, name, content)
 	}
-	put("pNAME.txt")           // outer/  (parent of parent)
-	put("mid/cNAME.txt")       // sibling file of root
-	put("mid/sib/NAME.txt")    // sibling dir
-	put("mid/root-old/NAME")   // sibling whose name extends the root's
+	put("pNAME.txt")         // outer/  (parent of parent)
+	put("mid/cNAME.txt")     // sibling file of root
+	put("mid/sib/NAME.txt")  // sibling dir
+	put("mid/root-old/NAME") // sibling whose name extends the root's
 	put("mid/rootx/NAME")
 	put("mid/roo/NAME")
 	put("other/deep/NAME.txt")
@@ -212,12 +213,26 @@ func evaluate(t testing.TB, s *sandbox, c Case) vev.Outcome {
 	}
 	cls := vev.Sig(c.Channel, c.Method)
 	s.applyPrior(c)
+	// while an upload is in progress nothing may appear outside the root either (temporary files): the body
+	// reader looks around when the server first asks it for data
+	var during *vfs.Node
+	if c.Method == "PUT" && req.Body != nil {
+		req.Body = &spyBody{ReadCloser: req.Body, look: func() { during = s.snapshotOutside(t) }}
+	}
 	resp := cfs.Serve(s.srv.H, req)
 	dev := func(kind, f string, a ...any) vev.Outcome {
 		return vev.Outcome{Sig: vev.Sig(cls, kind), Msg: fmt.Sprintf("%s %q via %s answered %d: ", c.Method, string(c.Str), c.Channel, resp.Status) + fmt.Sprintf(f, a...)}
 	}
 	if resp.Panic != nil {
 		return dev("panic", "panic: %v", resp.Panic)
+	}
+	if during != nil && !during.Equal(s.outside) {
+		return dev("outside-changed-during-upload", "while the body was being read the sandbox outside the served directory differed\n before %s\n during %s", s.outside, during)
+	}
+	// the served directory is a collection, whatever was asked: if it exists at all it is still a directory
+	if fi, err := os.Lstat(s.root); err == nil && !fi.IsDir() {
+		os.Remove(s.root)
+		return dev("root-replaced", "the served directory itself was replaced by a non-directory")
 	}
 	// (i) nothing outside changed
 	after := s.snapshotOutside(t)
@@ -292,6 +307,20 @@ func evaluate(t testing.TB, s *sandbox, c Case) vev.Outcome {
 		}
 	}
 	return vev.Outcome{}
+}
+
+type spyBody struct {
+	io.ReadCloser
+	look func()
+	done bool
+}
+
+func (b *spyBody) Read(p []byte) (int, error) {
+	if !b.done {
+		b.done = true
+		b.look()
+	}
+	return b.ReadCloser.Read(p)
 }
 
 func deref(p *string) string {
